@@ -1,6 +1,7 @@
 package main
 
 import (
+	"go/ast"
 	"fmt"
 	"os"
 	"strings"
@@ -274,6 +275,11 @@ func (fx *FuncExec) callWithContract(ps *pathState, x *ssa.Call, callee *ssa.Fun
 	}
 	// havoc the frame
 	for _, cl := range con.Modifies {
+		if nm, ft, ok := fx.pk.everyField(cl.Expr); ok {
+			// `every(T, field)`: that field of all heap objects of type T
+			fx.havocHeapField(st, nm, ft)
+			continue
+		}
 		p, v, ok := env.lvalue(cl.Expr)
 		if !ok {
 			fx.specErrs = append(fx.specErrs, fmt.Sprintf("%s: modifies %s at call site: %v", cl.Line, cl.Text, env.err))
@@ -385,7 +391,7 @@ func (fx *FuncExec) havocLoc(st *State, p PtrV, cur Val) {
 			st.objs[sl.Arr] = SeqV{Tree: fx.pk.seqTreeOf(fx.c, elemTypeOfSeq(seq), "havoc[]", false), N: seq.N, Typ: seq.Typ}
 		}
 	}
-	if p.Obj == 0 {
+	if p.Obj == 0 && !isHeapPtr(p) {
 		return
 	}
 	nv := st.freshVal(cur.Type(), "havoc", 0)
@@ -562,6 +568,8 @@ func (fx *FuncExec) havocLoop(ps *pathState, li *LoopInfo) {
 			} else if bv, ok := rootVal(x.X, depth+1); ok {
 				if bp, ok := bv.(PtrV); ok && bp.Sym == "" && bp.Obj != 0 {
 					base = bp
+				} else if ok && isHeapPtr(bp) {
+					base, _ = st.resolve(bp)
 				} else {
 					return PtrV{}, false
 				}
@@ -575,7 +583,7 @@ func (fx *FuncExec) havocLoop(ps *pathState, li *LoopInfo) {
 			} else {
 				return PtrV{}, false
 			}
-			return PtrV{Obj: base.Obj, Path: append(append([]Step(nil), base.Path...), Step{Field: x.Field})}, true
+			return PtrV{Obj: base.Obj, Sym: base.Sym, Root: base.Root, Path: append(append([]Step(nil), base.Path...), Step{Field: x.Field})}, true
 		case *ssa.IndexAddr:
 			if id, ok := rootSlice(x.X, depth+1); ok {
 				return PtrV{Obj: id}, true
@@ -588,11 +596,18 @@ func (fx *FuncExec) havocLoop(ps *pathState, li *LoopInfo) {
 			return PtrV{}, false
 		case *ssa.Global, *ssa.FreeVar, *ssa.Parameter:
 			p, ok := fx.val(st, v).(PtrV)
+			if ok && isHeapPtr(p) {
+				p, _ = st.resolve(p)
+				return p, true
+			}
 			return p, ok && p.Sym == "" && p.Obj != 0
 		case *ssa.UnOp:
 			// pointer loaded from a variable
 			if bv, ok := rootVal(x, depth+1); ok {
 				if p, ok := bv.(PtrV); ok && p.Sym == "" && p.Obj != 0 {
+					return p, true
+				} else if ok && isHeapPtr(p) {
+					p, _ = st.resolve(p)
 					return p, true
 				}
 			}
@@ -684,6 +699,46 @@ func (fx *FuncExec) havocLoop(ps *pathState, li *LoopInfo) {
 					heapWhy = append(heapWhy, "4")
 		}
 	}
+	// a store through a pointer that changes in the loop into a field of a struct: the field's heap
+	// array (all objects) and the same field of every escaped local object of that type
+	type heapField struct {
+		name   string
+		typ    types.Type
+		root   types.Type
+		fields []int
+	}
+	var heapFields []heapField
+	addHeapField := func(addr ssa.Value) bool {
+		var fields []int
+		cur := addr
+		for {
+			fa, ok := cur.(*ssa.FieldAddr)
+			if !ok {
+				break
+			}
+			fields = append([]int{fa.Field}, fields...)
+			cur = fa.X
+		}
+		if len(fields) == 0 {
+			return false
+		}
+		pt, ok := cur.Type().Underlying().(*types.Pointer)
+		if !ok {
+			return false
+		}
+		t := pt.Elem()
+		name := typeKey(t)
+		for _, f := range fields {
+			stt, ok := t.Underlying().(*types.Struct)
+			if !ok || f >= stt.NumFields() {
+				return false
+			}
+			name += "_" + stt.Field(f).Name()
+			t = stt.Field(f).Type()
+		}
+		heapFields = append(heapFields, heapField{name, t, pt.Elem(), fields})
+		return true
+	}
 	for _, b := range blocks {
 		for _, in := range b.Instrs {
 			switch x := in.(type) {
@@ -699,13 +754,18 @@ func (fx *FuncExec) havocLoop(ps *pathState, li *LoopInfo) {
 				if p, ok := rootLoc(x.Addr, 0); ok {
 					targets = append(targets, target{p: p})
 				} else if !storesToLoopLocal(x.Addr, li) {
-					heapAll = true
-					heapWhy = append(heapWhy, "5")
+					if !addHeapField(x.Addr) {
+						heapAll = true
+						heapWhy = append(heapWhy, "5")
+					}
 				}
 			case *ssa.MapUpdate:
 				if u, ok := x.Map.(*ssa.UnOp); ok && u.Op == token.MUL {
 					if p, ok := rootLoc(u.X, 0); ok {
 						targets = append(targets, target{p: p})
+						continue
+					}
+					if storesToLoopLocal(u.X, li) || addHeapField(u.X) {
 						continue
 					}
 				}
@@ -737,6 +797,9 @@ func (fx *FuncExec) havocLoop(ps *pathState, li *LoopInfo) {
 						if u, ok := cc.Args[0].(*ssa.UnOp); ok && u.Op == token.MUL {
 							if p, ok := rootLoc(u.X, 0); ok {
 								targets = append(targets, target{p: p})
+								continue
+							}
+							if storesToLoopLocal(u.X, li) || addHeapField(u.X) {
 								continue
 							}
 						}
@@ -787,6 +850,80 @@ func (fx *FuncExec) havocLoop(ps *pathState, li *LoopInfo) {
 						continue
 					}
 				}
+				if con != nil && callee != fx.fn && !cc.IsInvoke() {
+					// a callee under contract: its frame, expressed over the arguments at this call
+					names := paramNames(callee, con)
+					cvars := map[string]Val{}
+					varying := map[string]ssa.Value{}
+					for i, a := range cc.Args {
+						if i >= len(names) {
+							break
+						}
+						if v, ok := rootVal(a, 0); ok {
+							cvars[names[i]] = v
+						} else if c, ok := a.(*ssa.Const); ok {
+							cvars[names[i]] = fx.val(st, c)
+						} else {
+							varying[names[i]] = a
+						}
+					}
+					allOK := true
+					for _, cl := range con.Modifies {
+						if nm, ft, rt, idxs, ok := fx.pk.everyFieldFull(cl.Expr); ok {
+							heapFields = append(heapFields, heapField{nm, ft, rt, idxs})
+							continue
+						}
+						root, chain := selectorChain(cl.Expr)
+						if root == "" {
+							allOK = false
+							break
+						}
+						if arg, isVar := varying[root]; isVar {
+							// the argument changes in the loop: the named field of every object of its type
+							pt, ok := arg.Type().Underlying().(*types.Pointer)
+							if !ok || len(chain) == 0 {
+								allOK = false
+								break
+							}
+							t := pt.Elem()
+							name := typeKey(t)
+							var idxs []int
+							good := true
+							for _, f := range chain {
+								fp, ok := fieldPath(t, f)
+								if !ok {
+									good = false
+									break
+								}
+								for _, i := range fp {
+									stt := t.Underlying().(*types.Struct)
+									name += "_" + stt.Field(i).Name()
+									t = stt.Field(i).Type()
+									idxs = append(idxs, i)
+								}
+							}
+							if !good {
+								allOK = false
+								break
+							}
+							heapFields = append(heapFields, heapField{name, t, pt.Elem(), idxs})
+							continue
+						}
+						env := &SpecEnv{st: st, old: st, vars: cvars, fx: nil, lvFx: fx}
+						p, v, ok := env.lvalue(cl.Expr)
+						if !ok || (p.Obj == 0 && !isHeapPtr(p)) {
+							allOK = false
+							break
+						}
+						targets = append(targets, target{p: p})
+						if sl, ok := v.(SliceV); ok && sl.Arr != 0 {
+							targets = append(targets, target{arr: sl.Arr})
+						}
+					}
+					if allOK {
+						continue
+					}
+				}
 				// with or without contract: whatever is reachable from pointer-like arguments
 				if cc.IsInvoke() {
 					heapAll = true
@@ -818,11 +955,53 @@ func (fx *FuncExec) havocLoop(ps *pathState, li *LoopInfo) {
 			}
 		}
 	}
+	for _, in := range li.header.Instrs {
+		if n, ok := in.(*ssa.Next); ok && !n.IsString {
+			if rg, ok := n.Iter.(*ssa.Range); ok {
+				if mt, ok := rg.X.Type().Underlying().(*types.Map); ok {
+					if st.iterVisited == nil {
+						st.iterVisited = map[*ssa.Range]Term{}
+					}
+					st.iterVisited[rg] = fx.c.fresh("visited", "(Array "+st.keySort(mt.Key())+" Bool)")
+				}
+			}
+		}
+	}
 	if heapAll {
 		if os.Getenv("GVC_DEBUG") != "" {
 			fmt.Fprintf(os.Stderr, "havocLoop %s loop#%d: heapAll because %v\n", fx.key, li.ord, heapWhy)
 		}
 		fx.havocHeap(st)
+	}
+	for _, hf := range heapFields {
+		st.heapRead(hf.typ, Term{"ref_nil", SRef}, hf.name) // declares the arrays of this field
+		var names []string
+		for n := range fx.c.heapSorts {
+			if n == hf.name || strings.HasPrefix(n, hf.name+"_") {
+				names = append(names, n)
+			}
+		}
+		sort.Strings(names)
+		for _, n := range names {
+			st.hfresh(n)
+		}
+		// escaped local objects of the same type may be the target as well
+		var keys []string
+		for k := range st.refVals {
+			keys = append(keys, k)
+		}
+		sort.Strings(keys)
+		for _, k := range keys {
+			if pv, ok := st.refVals[k].(PtrV); ok && pv.Sym == "" && pv.Obj != 0 && hf.root != nil {
+				if pt, ok := pv.Typ.Underlying().(*types.Pointer); ok && types.Identical(pt.Elem(), hf.root) {
+					path := append([]Step(nil), pv.Path...)
+					for _, f := range hf.fields {
+						path = append(path, Step{Field: f})
+					}
+					targets = append(targets, target{p: PtrV{Obj: pv.Obj, Path: path}})
+				}
+			}
+		}
 	}
 	for _, t := range targets {
 		if t.arr != 0 {
@@ -1270,4 +1449,92 @@ func callHasRefArgs(args []Val) bool {
 		}
 	}
 	return false
+}
+
+// everyField recognises the frame expression every(T, f.g): field f.g of every heap object of type T.
+// It returns the heap array name prefix and the field's type.
+func (pk *PkgCtx) everyField(x ast.Expr) (string, types.Type, bool) {
+	n, t, _, _, ok := pk.everyFieldFull(x)
+	return n, t, ok
+}
+
+func (pk *PkgCtx) everyFieldFull(x ast.Expr) (string, types.Type, types.Type, []int, bool) {
+	ce, ok := x.(*ast.CallExpr)
+	if !ok {
+		return "", nil, nil, nil, false
+	}
+	id, ok := ce.Fun.(*ast.Ident)
+	if !ok || id.Name != "every" || len(ce.Args) != 2 {
+		return "", nil, nil, nil, false
+	}
+	t := pk.resolveType(ce.Args[0])
+	if t == nil {
+		return "", nil, nil, nil, false
+	}
+	root := t
+	var idxs []int
+	name := typeKey(t)
+	var fields []string
+	var walk func(e ast.Expr) bool
+	walk = func(e ast.Expr) bool {
+		switch y := e.(type) {
+		case *ast.Ident:
+			fields = append(fields, y.Name)
+			return true
+		case *ast.SelectorExpr:
+			if !walk(y.X) {
+				return false
+			}
+			fields = append(fields, y.Sel.Name)
+			return true
+		}
+		return false
+	}
+	if !walk(ce.Args[1]) {
+		return "", nil, nil, nil, false
+	}
+	for _, f := range fields {
+		fp, ok := fieldPath(t, f)
+		if !ok {
+			return "", nil, nil, nil, false
+		}
+		for _, i := range fp {
+			st := t.Underlying().(*types.Struct)
+			name += "_" + st.Field(i).Name()
+			t = st.Field(i).Type()
+			idxs = append(idxs, i)
+		}
+	}
+	return name, t, root, idxs, true
+}
+
+func (fx *FuncExec) havocHeapField(st *State, name string, ft types.Type) {
+	st.heapRead(ft, Term{"ref_nil", SRef}, name) // declares the arrays of this field
+	var names []string
+	for n := range fx.c.heapSorts {
+		if n == name || strings.HasPrefix(n, name+"_") {
+			names = append(names, n)
+		}
+	}
+	sort.Strings(names)
+	for _, n := range names {
+		st.hfresh(n)
+	}
+}
+
+// selectorChain: x.f.g -> ("x", ["f","g"]); anything else -> "".
+func selectorChain(e ast.Expr) (string, []string) {
+	switch y := e.(type) {
+	case *ast.Ident:
+		return y.Name, nil
+	case *ast.ParenExpr:
+		return selectorChain(y.X)
+	case *ast.SelectorExpr:
+		r, ch := selectorChain(y.X)
+		if r == "" {
+			return "", nil
+		}
+		return r, append(ch, y.Sel.Name)
+	}
+	return "", nil
 }
